@@ -125,9 +125,13 @@ func c18Case(r *fw.Rand, index string) fw.Case {
 		case 0, 1, 2:
 			ops = append(ops, "w "+batch())
 		case 3:
-			ops = append(ops, "snap")
-			flush()
-			files++
+			if r.Intn(5) == 0 {
+				ops = append(ops, "snapfail") // retried by the next snapshot or backup
+			} else {
+				ops = append(ops, "snap")
+				flush()
+				files++
+			}
 		case 4:
 			if files >= 2 {
 				a := r.Intn(files - 1)
@@ -195,6 +199,25 @@ func c18CopyCase(r *fw.Rand, index string) fw.Case {
 			cut = "nosrc"
 		}
 		ops = append(ops, fmt.Sprintf("copy %s %s n", cut, liveList()))
+		if cut == "full" {
+			// the copy succeeded: the meta nodes add the destination to the shard's owners
+			var owners []string
+			for id := 1; id <= 8; id++ {
+				if r.Intn(3) == 0 {
+					owners = append(owners, fmt.Sprint(id))
+				}
+			}
+			ol := "-"
+			if len(owners) > 0 {
+				ol = strings.Join(owners, ",")
+			}
+			ops = append(ops, fmt.Sprintf("cowner %s %d", ol, 1+r.Intn(9)))
+		}
+	}
+	if r.Intn(2) == 0 {
+		// the source side fails part-way: a file of the snapshot cannot be opened
+		n := 1 + r.Intn(4)
+		ops = append(ops, fmt.Sprintf("tarfault %d %d", n, r.Intn(n+1)))
 	}
 	return fw.Case{Ops: ops, Tags: []string{"copy", index}}
 }
